@@ -516,6 +516,8 @@ func c12Worker(c *mc.Ctx) {
 			}
 		}
 	}
+	// Go side: deviations of bound 1 around a well-formed user package (fast ParseGo).
+	c12GoAxis(c, ws, &n)
 	// Go-package axis through the real binary.
 	c12Packages(c, ws)
 }
@@ -779,6 +781,9 @@ func withoutTrailer(stderr string) string {
 }
 
 func c12Replay(raw json.RawMessage) *mc.Violation {
+	if v, ok := c12GoReplay(raw); ok {
+		return v
+	}
 	var cs c12Case
 	var pkgProbe struct {
 		Name string `json:"package_config"`
